@@ -1,10 +1,10 @@
 package main
 
 import (
-	"github.com/storacha/go-ucanto/core/schema"
 	"bytes"
 	"crypto/ed25519"
 	"fmt"
+	"github.com/storacha/go-ucanto/core/schema"
 	"strings"
 
 	"github.com/storacha/go-ucanto/did"
